@@ -4,6 +4,7 @@
 mod c14;
 mod c15;
 mod common;
+mod lang;
 
 fn main() {
     let args: Vec<String> = std::env::args().skip(1).collect();
@@ -11,6 +12,7 @@ fn main() {
     let rest = &args[args.len().min(1)..];
     let code = match cmd {
         "c14-trace" => c14::trace(rest),
+        "lang-trace" => lang::trace(rest),
         "c15-helper" => c15::helper(rest),
         "c15-replay" => c15::replay(rest),
         _ => {
